@@ -27,6 +27,7 @@ func init() {
 	ruleText["R19.4"] = "in the goroutine started by (*Interpreter).Debug a deferred call of the events callback with reason DebugTerminate is registered before ExecuteWithContext is called"
 	ruleText["R19.5"] = "the function literal passed to (*node).Walk by SetBreakpoints returns only the constant true"
 	ruleText["R19.7"] = "in SetBreakpoints every call that can store into a breakpoint flag of nodeDebugData lies in the section guarded by one request table of breakpointSetup, and distinct flags belong to distinct tables: placing or resetting one kind of breakpoint never touches the other kind"
+	ruleText["R19.8"] = "same analysis as C01/R01.8 restricted to the channel-operation generators (recv, recv2, send, rangeChan, _select): a closure that stores a result stores it on every path that continues"
 	ruleText["R19.6"] = "in every closure using reflect.Value.TryRecv (cancellable receive), a status stored with SetBool is the ok result reported by reflect (TryRecv/Recv/Select) or the literal true under an if on exactly that ok"
 }
 
@@ -43,6 +44,9 @@ func runC19(c *Config, r *Report) {
 	c19R5(ic, r)
 	c19R6(ic, r)
 	c19R7(ic, r)
+	// R19.8: the channel operations a debugged program runs (the cancellable variants) store their
+	// results on every path, like the blocking ones (same analysis as C01/R01.8)
+	c01R8(ic, r, "R19.8", map[string]bool{"recv": true, "recv2": true, "send": true, "rangeChan": true, "_select": true})
 	c09R1(ic, r, "R19.2")
 }
 
@@ -315,6 +319,26 @@ func c19R2(ic *IC, r *Report) {
 			}
 			return true
 		})
+		// a loop that runs with a debugger attached (not inside the `debugger == nil` branch)
+		// consults the debugger before each operation: breakpoints are reported in every frame,
+		// also in calls being stepped over or out of
+		{
+			plain := false
+			for _, p := range enclosingPath(l.fn.Decl.Body, l.loop) {
+				if ifs, ok := p.(*ast.IfStmt); ok {
+					if be, ok := unparen(ifs.Cond).(*ast.BinaryExpr); ok && be.Op == token.EQL && types.ExprString(be.Y) == "nil" {
+						if t := ic.Info.TypeOf(be.X); t != nil && isNamedPtr(t, "Debugger") {
+							plain = true
+						}
+					}
+				}
+			}
+			if !plain {
+				consults := len(callsIn(ic.Info, l.loop.Body, false, "interp.Debugger.exec")) > 0
+				r.Check(consults, "R19.2", key+"/consults-the-debugger", ic.pos(l.loop.Pos()), "the loop run with a debugger attached calls (*Debugger).exec in each iteration",
+					"an execution loop of "+name+" that runs with a debugger attached never calls (*Debugger).exec: breakpoints on the lines it executes (for instance inside a call that is being stepped over or out of) are not reported")
+			}
+		}
 		r.Check(calls == 1 && assignedBack && nilStop, "R19.2", key, ic.pos(l.loop.Pos()), "one bltn call per iteration, fed back, loop left on nil",
 			fmt.Sprintf("execution loop of %s: %d bltn call(s) per iteration, result fed back into the loop variable: %v, leaves the loop on nil: %v: the plain and the debugger loops do not execute the same sequence of operations", name, calls, assignedBack, nilStop))
 	}
